@@ -335,7 +335,7 @@ func ruleSkipDiscipline(c *Ctx, rule string, exceptions map[string]string) {
 			}
 		})
 	}
-	r.Floor(rule, "call sites of consumeIgnoreableTokens in parser.go", nskip, 60)
+	r.Floor(rule, "call sites of consumeIgnoreableTokens in parser.go", nskip, 40)
 	// greatest fixpoint
 	var order []*skFn
 	for _, f := range a.fns {
@@ -465,8 +465,8 @@ func ruleSkipDiscipline(c *Ctx, rule string, exceptions map[string]string) {
 		}
 	}
 	r.Tables["skip_summaries"] = summ
-	r.Floor(rule, "token-kind decisions in parser.go", ndec, 120)
-	r.Floor(rule, "parse functions with decisions", nfn, 25)
+	r.Floor(rule, "token-kind decisions in parser.go", ndec, 80)
+	r.Floor(rule, "parse functions with decisions", nfn, 15)
 	for n, why := range exemptFns {
 		r.Note("C15.R1 exempt function %s: %s", n, why)
 	}
